@@ -56,7 +56,7 @@ fn receive_all_vs_decoder<const N: usize>() {
         match Telegram::deserialize(&buf[off..len]) {
             Some(Ok((t, n))) => {
                 let is_last = off + n == len;
-                assert!(k < ngot && k < 12 && got[k] == rec_of(&t, is_last), "C16/exact: exactly the buffered telegrams are handed to the caller, in order, flagged last iff nothing is buffered behind");
+                vassert!(k < ngot && k < 12 && got[k] == rec_of(&t, is_last), "C16/exact: exactly the buffered telegrams are handed to the caller, in order, flagged last iff nothing is buffered behind");
                 k += 1;
                 off += n;
                 last_flagged = is_last;
@@ -75,11 +75,11 @@ fn receive_all_vs_decoder<const N: usize>() {
             }
         }
     }
-    assert!(ngot == k, "C16/exact: no telegram is handed over twice or invented");
-    assert!(phy.rx_off == off, "C16/no-loss: exactly the bytes of handed-over telegrams (or of undecodable data) are dropped; an incomplete telegram stays buffered");
-    assert!(res.is_some() == (k > 0 && last_flagged), "C16/result: the caller's result is forwarded iff the last telegram was flagged last");
+    vassert!(ngot == k, "C16/exact: no telegram is handed over twice or invented");
+    vassert!(phy.rx_off == off, "C16/no-loss: exactly the bytes of handed-over telegrams (or of undecodable data) are dropped; an incomplete telegram stays buffered");
+    vassert!(res.is_some() == (k > 0 && last_flagged), "C16/result: the caller's result is forwarded iff the last telegram was flagged last");
     if let Some(r) = res {
-        assert!(r == k, "C16/result: the forwarded result is that of the last telegram");
+        vassert!(r == k, "C16/result: the forwarded result is that of the last telegram");
     }
     kani::cover!(k == 2 && off < len, "cover: two telegrams followed by an incomplete one");
     kani::cover!(k >= 1 && off == len && !last_flagged, "cover: telegram followed by garbage");
@@ -114,13 +114,13 @@ fn c16_receive_one_vs_decoder_q() {
     });
     match Telegram::deserialize(&buf[..len]) {
         Some(Ok((t, n))) => {
-            assert!(calls == 1 && res == Some(rec_of(&t, false)) && phy.rx_off == n, "C16/exact: the first buffered telegram is handed over once and exactly its bytes are dropped");
+            vassert!(calls == 1 && res == Some(rec_of(&t, false)) && phy.rx_off == n, "C16/exact: the first buffered telegram is handed over once and exactly its bytes are dropped");
             kani::cover!(n < len, "cover: more data behind the received telegram");
         }
-        Some(Err(())) => assert!(calls == 0 && res.is_none() && phy.rx_off == len, "C16/discard: undecodable data is discarded entirely"),
-        None => assert!(calls == 0 && res.is_none() && phy.rx_off == 0, "C16/no-loss: no byte of a still incomplete telegram is dropped"),
+        Some(Err(())) => vassert!(calls == 0 && res.is_none() && phy.rx_off == len, "C16/discard: undecodable data is discarded entirely"),
+        None => vassert!(calls == 0 && res.is_none() && phy.rx_off == 0, "C16/no-loss: no byte of a still incomplete telegram is dropped"),
     }
-    assert!(phy.poll_pending_received_bytes(now) == len - phy.rx_off, "C16/pending: the pending byte count is what is left in the buffer");
+    vassert!(phy.poll_pending_received_bytes(now) == len - phy.rx_off, "C16/pending: the pending byte count is what is left in the buffer");
 }
 
 /// One telegram of a symbolic kind written by the real encoder at `buf[off..]`.
@@ -185,7 +185,7 @@ fn c16_chunked_stream_q() {
         });
     }
     if ngot == 0 {
-        assert!(phy.rx_off == off_before, "C16/no-loss: no byte of a still incomplete telegram is dropped");
+        vassert!(phy.rx_off == off_before, "C16/no-loss: no byte of a still incomplete telegram is dropped");
     }
     // second delivery: the rest has arrived
     phy.rx_len = total;
@@ -197,9 +197,9 @@ fn c16_chunked_stream_q() {
         ngot += 1;
         last_flag = is_last;
     });
-    assert!(ngot == 2 && got[0] == r1 && got[1] == r2, "C16/chunking: the telegrams of the stream are received in order, each once, wherever the stream was cut");
+    vassert!(ngot == 2 && got[0] == r1 && got[1] == r2, "C16/chunking: the telegrams of the stream are received in order, each once, wherever the stream was cut");
     let second_delivered = phy.rx_calls > 0 && last_flag;
-    assert!(phy.rx_off == total && (second_delivered || (cut == total && first_last_flag)), "C16/chunking: the buffer is empty afterwards and the final telegram was flagged last");
+    vassert!(phy.rx_off == total && (second_delivered || (cut == total && first_last_flag)), "C16/chunking: the buffer is empty afterwards and the final telegram was flagged last");
     kani::cover!(cut > 0 && cut < n1, "cover: cut inside the first telegram");
     kani::cover!(cut > n1 && cut < total, "cover: cut inside the second telegram");
     kani::cover!(r1.kind == 2 && r2.kind == 0, "cover: data telegram followed by a token");
@@ -217,7 +217,7 @@ fn c16_garbage_then_telegram_q() {
     let now = crate::time::Instant::ZERO;
     let mut calls = 0;
     phy.receive_all_telegrams(now, |_, _| calls += 1);
-    assert!(calls == 0 && phy.rx_off == glen, "C16/discard: undecodable data is discarded entirely");
+    vassert!(calls == 0 && phy.rx_off == glen, "C16/discard: undecodable data is discarded entirely");
     // the next telegram arrives on its own
     let (n, r) = emit(&mut buf, glen);
     phy.rx = buf;
@@ -227,6 +227,6 @@ fn c16_garbage_then_telegram_q() {
         got = rec_of(&t, is_last);
         calls += 1;
     });
-    assert!(calls == 1 && res.is_some() && got == Rec { is_last: true, ..r }, "C16/recover: after discarding garbage the next telegram is received correctly");
+    vassert!(calls == 1 && res.is_some() && got == Rec { is_last: true, ..r }, "C16/recover: after discarding garbage the next telegram is received correctly");
     kani::cover!(r.kind == 2, "cover: data telegram after garbage");
 }
